@@ -172,6 +172,7 @@ func runC15(c *Ctx, r *Report) {
 		return
 	}
 	c15History(c, r)
+	kindHistory(c, r, "C15-7-kind-history", nil, "the field is decoded into, and encoded from, a Go value of the wrong kind")
 	info := c.fit.TypesInfo
 	_ = info
 	ev := newEvaluator(c)
